@@ -165,6 +165,51 @@ def rule_r2(p, res):
                         cmp_ = n.args[0]
                         if all(isinstance(o, ast.Eq) for o in cmp_.ops):
                             exact.append(n)
+        # the recompute condition as a boolean function of (no key yet, same shape, same values)
+        if len(m["tests"]) == 1 and not approx:
+            key_txt = "self." + m["key"]
+            prm = [q for q in f.params[1:]]
+
+            def ev(e, asg):
+                if isinstance(e, ast.UnaryOp) and isinstance(e.op, ast.Not):
+                    v = ev(e.operand, asg)
+                    return None if v is None else not v
+                if isinstance(e, ast.BoolOp):
+                    vs = [ev(v, asg) for v in e.values]
+                    if isinstance(e.op, ast.And):
+                        return False if any(v is False for v in vs) else (None if any(v is None for v in vs) else True)
+                    return True if any(v is True for v in vs) else (None if any(v is None for v in vs) else False)
+                s_ = str(norm(e))
+                if s_ in (key_txt + " is None",):
+                    return asg["none"]
+                if s_ in (key_txt + " is not None",):
+                    return not asg["none"]
+                if isinstance(e, ast.Compare) and len(e.ops) == 1 and ".shape" in s_ and isinstance(e.ops[0], (ast.Eq, ast.NotEq)):
+                    return asg["shape"] if isinstance(e.ops[0], ast.Eq) else not asg["shape"]
+                if isinstance(e, ast.Call) and (dotted(e.func) or "").split(".")[-1] in EXACT_FUNCS:
+                    return asg["equal"]
+                return None
+            test_, pol_ = [(t_, p_) for t_, p_ in m["cfg"].guards(m["key_stmt"]) if t_ is m["tests"][0]][0]
+            bad_rows = []
+            undec = False
+            for none_ in (False, True):
+                for shape_ in (False, True):
+                    for equal_ in (False, True):
+                        if equal_ and not shape_:
+                            continue  # equal values imply equal shapes
+                        v = ev(test_, {"none": none_, "shape": shape_, "equal": equal_})
+                        if v is None:
+                            undec = True
+                            continue
+                        recompute = (v == pol_)
+                        want = none_ or not (shape_ and equal_)
+                        if none_ and v is not None and recompute != want:
+                            bad_rows.append(("no key yet", recompute))
+                        elif not none_ and recompute != want:
+                            bad_rows.append(("shape %s / values %s" % ("same" if shape_ else "differs", "same" if equal_ else "differ"), recompute))
+            if not undec:
+                r.check(not bad_rows, f, m["tests"][0], "the memo is refreshed under `%s`, which gives %s: it must be refreshed exactly when there is no key yet or the argument differs from the key "
+                        "in shape or in any value (otherwise a different input of the same shape is answered with the previous result)" % (norm(test_)[:90], bad_rows[:3]), {"memo_truth_table": 6})
         for a in approx:
             r.violation(f, a, "memo hit test uses the tolerance comparison `%s`: an input that differs from the cached one by less "
                         "than the tolerance gets the stale result" % norm(a)[:70])
@@ -275,6 +320,9 @@ def rule_r4(p, res):
                       and "call:self._apply" in leaves(n.value, defs)]
             for st in stores:
                 buf = defs.single(st.targets[0].value.id)
+                if buf is None:
+                    cands = [v_ for k_, v_, s_ in defs.of(st.targets[0].value.id) if k_ == "assign" and isinstance(v_, ast.Call)]
+                    buf = cands[0] if len(cands) == 1 else None
                 if isinstance(buf, ast.Call) and ("param:" + xparam) in leaves(buf, defs) and (dotted(buf.func) or "").split(".")[-1] in ("empty_like", "zeros_like", "ones_like", "full_like", "empty", "zeros", "ones", "full"):
                     r.violation(f, st, "the per-batch results are written into `%s`, a buffer that takes its dtype and shape from the input points: a result of another dtype "
                                 "(integer-stored coordinates mapped to fractions) is silently cast and a result of another dimensionality does not fit, so the batched "
@@ -552,4 +600,10 @@ WITNESSES += [
     Witness("C09.W14", "menpo/transform/__init__.py", "WithDims._apply", "x[:, self.dims].reshape([x.shape[0], -1]).copy()", "x[:, self.dims].reshape([x.shape[0], -1])",
             rule="C09.R7", construct="WithDims._apply", note="seeded changes R3-C02-C / R3-C09-B"),
     Witness("C09.T2", "menpo/transform/__init__.py", "WithDims._apply", "x[:, self.dims].reshape([x.shape[0], -1]).copy()", "np.array(x[:, self.dims].reshape([x.shape[0], -1]))", kind="T"),
+]
+
+WITNESSES += [
+    Witness("C09.W15", "menpo/transform/piecewiseaffine/base.py", "CachedPWA.index_alpha_beta",
+            "self._applied_points is None or not points.shape == self._applied_points.shape or (not np.array_equal(points, self._applied_points))",
+            "self._applied_points is None or not (points.shape == self._applied_points.shape or np.array_equal(points, self._applied_points))", rule="C09.R2", construct="index_alpha_beta", note="seeded change R4-C09-B"),
 ]
